@@ -7,7 +7,18 @@ from vlib import hexd, frac, frac_of_hex, unhex
 EPS = 2.0 ** -52
 
 
-STYLES = ["dyadic", "full", "full", "singular", "scalar", "zeroF", "nonnormal", "symF", "diagF", "identityF", "orthF"]
+STYLES = ["dyadic", "full", "tinyscale", "singular", "scalar", "zeroF", "nonnormal", "symF", "diagF", "identityF", "orthF", "hugescale", "mixedscale", "full"]
+
+
+def scale_of(r, style, which):
+    """overall magnitude of a covariance: the property does not constrain scale"""
+    if style == "tinyscale":
+        return 10 ** r.uniform(-10, -4)
+    if style == "hugescale":
+        return 10 ** r.uniform(4, 10)
+    if style == "mixedscale":
+        return 10 ** (r.uniform(-9, -4) if (which == "P") == (r.random() < 0.5) else r.uniform(3, 8))
+    return None
 
 
 def gen_case(g, tier, idx):
@@ -21,8 +32,11 @@ def gen_case(g, tier, idx):
         Q = g.spd_dyadic(n)
         F = [[g.dyadic(-2, 2, 3) for _ in range(n)] for _ in range(n)]
     else:
-        Q = g.spd(n, rank=(r.randint(0, n) if style == "singular" else None))
+        Q = g.spd(n, rank=(r.randint(0, n) if style == "singular" else None), scale=scale_of(r, style, "Q"))
         F = g.mat(n, n)
+        if style in ("tinyscale", "hugescale") and r.random() < 0.5:
+            fs = 10 ** (r.uniform(-6, -2) if style == "tinyscale" else r.uniform(2, 6))
+            F = [[fs * x for x in row] for row in F]
     if style == "zeroF":
         F = [[0.0] * n for _ in range(n)]
     if style == "nonnormal":
@@ -49,7 +63,7 @@ def gen_case(g, tier, idx):
             Ps = [g.spd_dyadic(n) for _ in range(k)]
             means = [[g.dyadic(-4, 4, 3) for _ in range(n)] for _ in range(k)]
         else:
-            Ps = [g.spd(n, rank=(r.randint(0, n) if style == "singular" else None)) for _ in range(k)]
+            Ps = [g.spd(n, rank=(r.randint(0, n) if style == "singular" else None), scale=scale_of(r, style, "P")) for _ in range(k)]
             means = [g.vec(n) for _ in range(k)]
         toks = [hexd(means[c][i]) for c in range(k) for i in range(n)]
         toks += [hexd(Ps[c][i][j]) for c in range(k) for j in range(n) for i in range(n)]
